@@ -215,7 +215,20 @@ class StmtMixin(ContractMixin):
         if isinstance(h, HDict):
             kt = self.lower(key, h.kty)
             self.oblige(st, "keyerror", subst(h.dom, [(h.binder, kt)]), where=self.where(node, st))
-            self.write_h(st, obj, HDict(h.kty, h.binder, t_and(h.dom, h.binder != kt), h.val, h.default, h.vty))
+            newh = HDict(h.kty, h.binder, t_and(h.dom, h.binder != kt), h.val, h.default, h.vty)
+            if st.rec and isinstance(obj, VRef):
+                ref = self.canon(st, obj)
+                if ref.root not in st.rec[-1].fresh and ref.root in getattr(st.rec[-1], "before", ()):
+                    # inside a summarised loop: a keyed deletion is its own effect kind (the iteration sees its own
+                    # deletion; other iterations' deletions are applied by the summary)
+                    fr = st.rec[-1]
+                    g = t_and(*st.pc[fr.pc_len:])
+                    fr.effects.append(Effect("del", ref.root, ref.path + (("k", key),), None, g, where=self.where(node, st)))
+                    self.check_alias_hazard(st, ref)
+                    st.ghost["__epoch__"] = st.ghost.get("__epoch__", 0) + 1
+                    st.heap[ref.root] = self.upd(st, st.heap[ref.root], list(ref.path), newh)
+                    return
+            self.write_h(st, obj, newh)
             return
         if isinstance(h, HPyDict):
             items = [(k, v) for k, v in h.items if not self.const_eq(k, key)]
@@ -735,7 +748,7 @@ class StmtMixin(ContractMixin):
     def foreach_side_conditions(self, st, s, src, ends, rec_depth, effects, before_roots):
         written = {}
         for ef, _ in effects:
-            if ef.root is not None and ef.kind in ("set", "add"):
+            if ef.root is not None and ef.kind in ("set", "add", "del"):
                 written.setdefault(ef.root, []).append(ef)
         k = self.loop_ordinal(st, s)
         for e in ends:
@@ -755,7 +768,7 @@ class StmtMixin(ContractMixin):
                             self.ctx.obls.append(self.mk_obl(st, f"foreach-side#{k}/read-own-cell", self.forall([r for _, r in ren] + list(src.binders), goal), "foreach", self.where(s, st)))
                     continue
                 for ef in written[cref.root]:
-                    if ef.kind != "set" and ef.kind != "add":
+                    if ef.kind not in ("set", "add", "del"):
                         continue
                     # the read cell must not be a cell another iteration writes
                     rp = cref.path + (("k", idx),)
@@ -854,7 +867,34 @@ class StmtMixin(ContractMixin):
             if ef.kind == "append":
                 self.apply_append(st, ef, binders, s)
                 continue
+            if ef.kind == "del":
+                self.apply_del(st, ef, binders, k, s)
+                continue
             raise Unsupported(f"effect {ef.kind}")
+
+    def apply_del(self, st, ef, binders, k, s):
+        """Summary of `del d[key(b)]` under guard(b): the keys some iteration deletes leave the domain. Python raises
+        KeyError when two iterations delete the same key: obligation del-unique-key."""
+        if st.rec and ef.root in getattr(st.rec[-1], "before", ()) and ef.root not in st.rec[-1].fresh:
+            outer_g = t_and(*st.pc[st.rec[-1].pc_len:])
+            st.rec[-1].effects.append(Effect("del", ef.root, ef.path, None, t_and(outer_g, ef.guard), binders, where=ef.where))
+            return
+        cref = VRef(ef.root, ef.path[:-1])
+        cur = self.resolve(st, cref)
+        if isinstance(cur, HPyDict):
+            cur = self.abstract_dict(st, cur, ef.path[-1][1], None)
+        if not isinstance(cur, HDict):
+            raise Unsupported(f"summarised deletion from {type(cur).__name__}")
+        if any(kk == "k" and self.key_mentions(x, list(binders)) for kk, x in ef.path[:-1]):
+            raise Unsupported("summarised deletion below a loop-dependent key")
+        key = self.lower(ef.path[-1][1], cur.kty)
+        ren = [(b, z3.Const(f"{b}!d{next(self.ctx.counter)}", b.sort())) for b in binders]
+        g2, key2 = z3.substitute(ef.guard, *ren) if ren else ef.guard, z3.substitute(key, *ren) if ren else key
+        if ren:
+            goal = z3.Implies(t_and(ef.guard, g2, key == key2), t_and(*[b == r for b, r in ren]))
+            self.ctx.obls.append(self.mk_obl(st, f"foreach-side#{k}/del-unique-key", self.forall(list(binders) + [r for _, r in ren], goal), "foreach", self.where(s, st)))
+        hit = self.exists(list(binders), t_and(ef.guard, key == cur.binder)) if binders else t_and(ef.guard, key == cur.binder)
+        st.heap[ef.root] = self.upd(st, st.heap[ef.root], list(cref.path), HDict(cur.kty, cur.binder, z3.simplify(t_and(cur.dom, z3.Not(hit))), cur.val, cur.default, cur.vty))
 
     def apply_const_cell_sets(self, st, grp, binders, k, s):
         """Several guarded writes of one loop-constant cell: sound when at most one iteration writes."""
